@@ -3,7 +3,11 @@
 
 package schedulerplugin
 
-import "net"
+import (
+	"net"
+
+	"tkestack.io/galaxy/pkg/ipam/floatingip"
+)
 
 // VerifChecklist is the snapshot a resync pass works on (fetchChecklist), kept by the verification harness so
 // that other requests can be placed between taking the snapshot and handling one of its items, as happens in
@@ -38,4 +42,10 @@ func (p *FloatingIPPlugin) VerifResyncItem(c *VerifChecklist, ip net.IP) {
 		}
 	}
 	p.resyncAllocatedIPs(only)
+}
+
+// VerifWrapIpam replaces the plugin's IPAM by wrap(current IPAM): the harness interposes on the calls the plugin makes
+// (to stop one request between two of them while another request arrives). Built only with -tags verif.
+func (p *FloatingIPPlugin) VerifWrapIpam(wrap func(floatingip.IPAM) floatingip.IPAM) {
+	p.ipam = wrap(p.ipam)
 }
